@@ -170,9 +170,10 @@ func mustAtoi64(fields []string, index, line int) int64 {
 // contains non-unique records the error is a csv.ParseError identifying the second non-unique
 // record.
 func ReadFrom(r io.Reader) (idx Index, err error) {
-	tr := csv.NewReader(r)
-	tr.Comma = '\t'
-	tr.FieldsPerRecord = 5
+	// An index is tab separated text without any quoting: a sequence
+	// name may hold any character but a tab or a line end, including
+	// quotation marks.
+	br := bufio.NewReader(r)
 	defer func() {
 		r := recover()
 		if r != nil {
@@ -188,12 +189,24 @@ func ReadFrom(r io.Reader) (idx Index, err error) {
 		}
 	}()
 	for line := 1; ; line++ {
-		rec, err := tr.Read()
-		if err == io.EOF {
-			return idx, nil
+		b, rerr := br.ReadBytes('\n')
+		if rerr != nil && rerr != io.EOF {
+			return nil, rerr
 		}
-		if err != nil {
-			return nil, err
+		b = bytes.TrimSuffix(b, []byte{'\n'})
+		b = bytes.TrimSuffix(b, []byte{'\r'})
+		if len(b) == 0 {
+			if rerr == io.EOF {
+				return idx, nil
+			}
+			continue
+		}
+		var rec []string
+		for _, f := range bytes.Split(b, []byte{'\t'}) {
+			rec = append(rec, string(f))
+		}
+		if len(rec) != 5 {
+			return nil, parseError(line, 1, csv.ErrFieldCount)
 		}
 		if idx == nil {
 			idx = make(Index)
